@@ -2,6 +2,7 @@
 //!
 //! usage: implrun <driver> [args] < cases > results     (one result line per case line)
 mod codec;
+mod timeout;
 mod util;
 
 fn main() {
@@ -14,6 +15,7 @@ fn main() {
     util::install_panic_hook();
     match args[1].as_str() {
         "codec" => codec::run(),
+        "timeout" => timeout::run(),
         other => {
             eprintln!("unknown driver {other}");
             std::process::exit(2);
